@@ -428,3 +428,106 @@ def float_noise_spec():
     links = [[0, 1, "FF"], [0, 2, "FF"]]
     teams = [{"name": "TM0", "targets": [0, 1, 2], "workers": [{"name": "W0", "skills": {"T0": 1.0}, "cost": 1.0}, {"name": "W1", "skills": {"T1": 0.1}, "cost": 1.0}, {"name": "W2", "skills": {"T2": 0.1}, "cost": 1.0}]}]
     return {"tasks": tasks, "links": links, "teams": teams, "label": "float-noise"}
+
+
+# ------------------------------------------------------------------------------------------------
+# families added after the fifth round of seeded changes
+# ------------------------------------------------------------------------------------------------
+def absence_sequences(nsteps=5, maxlen=3):
+    """every list of <= maxlen steps out of 0..nsteps-1 as a caller may write it: any order, repeated entries allowed"""
+    out = []
+    for k in range(1, maxlen + 1):
+        out.extend(list(s) for s in itertools.product(range(nsteps), repeat=k))
+    return out
+
+
+def absence_probe_models():
+    """small models in which something becomes allocatable at several different steps"""
+    out = []
+    out.append(with_teams({"tasks": [{"name": "T0", "work": 2.0}, {"name": "T1", "work": 1.0}], "links": [[0, 1, "FS"]]}, "POOL1"))
+    out.append(with_teams({"tasks": [{"name": "T0", "work": 1.0}, {"name": "T1", "work": 2.0}, {"name": "T2", "work": 1.0}], "links": [[0, 1, "FS"], [0, 2, "SS"]]}, "POOL2"))
+    out.append(with_teams({"tasks": [{"name": "T0", "work": 2.0}, {"name": "T1", "work": 2.0, "auto": True, "unit": 0.5}, {"name": "T2", "work": 1.0}], "links": [[0, 2, "FS"]]}, "DED"))
+    for sp in fac_specs("quick"):
+        if sp["label"] == "fac:2:per-task:one-cap2:two:both":
+            out.append(sp)
+    return out
+
+
+def float_residue_specs():
+    """work consumed in inexact decimal fractions that leaves a tiny POSITIVE remainder (2.1 - 3*0.7 = 2.2e-16, 1.0 - 10*0.1, 3 - 10*0.3),
+    with an FS successor so that a late finish delays something; and a dyadic control"""
+    out = []
+    for work, skill in ((2.1, 0.7), (1.0, 0.1), (3.0, 0.3), (1.5, 0.5)):
+        tasks = [{"name": "T0", "work": work}, {"name": "T1", "work": 1.0}]
+        teams = [{"name": "TM0", "targets": [0, 1], "workers": [{"name": "W0", "skills": {"T0": skill}, "cost": 1.0}, {"name": "W1", "skills": {"T1": 1.0}, "cost": 1.0}]}]
+        out.append({"tasks": tasks, "links": [[0, 1, "FS"]], "teams": teams, "label": "float-residue:%s/%s" % (work, skill)})
+    return out
+
+
+def auto_placement_specs():
+    """automatic tasks bound to a component that has to be placed, in projects where no worker is FREE at that moment
+    (every worker busy on a task that waits for the automatic one, or no workers at all)"""
+    out = []
+    for k01 in ("FS", "SS"):
+        for k12 in ("FF", "SF", "FS"):
+            tasks = [{"name": "T0", "work": 2.0, "auto": True}, {"name": "T1", "work": 2.0, "auto": True}, {"name": "T2", "work": 1.0}]
+            sp = {"tasks": tasks, "links": [[0, 1, k01], [1, 2, k12]], "components": [{"name": "C0", "tasks": [1]}],
+                  "workplaces": [{"name": "WP0", "cap": "inf", "targets": [1], "facilities": [{"name": "F0", "skills": {"T1": 1.0}}]}],  # (a component is only placed where some facility is skilled for the task)
+                  "teams": [{"name": "TM0", "targets": [2], "workers": [{"name": "W0", "skills": {"T2": 1.0}, "cost": 1.0}]}], "label": "auto-placement:%s:%s" % (k01, k12)}
+            out.append(sp)
+    for link in ([], [[0, 1, "FS"]]):
+        tasks = [{"name": "T0", "work": 2.0, "auto": True}, {"name": "T1", "work": 1.0, "auto": True, "unit": 0.5}]
+        out.append({"tasks": tasks, "links": link, "components": [{"name": "C0", "tasks": [0]}, {"name": "C1", "tasks": [1]}],
+                    "workplaces": [{"name": "WP0", "cap": "inf", "targets": [0, 1], "facilities": [{"name": "F0", "skills": {"T0": 1.0, "T1": 1.0}}]}], "teams": [], "label": "auto-placement:no-workers:%d" % len(link)})
+    return out
+
+
+def same_name_workplace_specs():
+    """two copied production lines: workplaces (and their tasks) carry the same names, IDs differ"""
+    out = []
+    for same_wp, same_task in ((True, True), (True, False), (False, True)):
+        tn = ("weld", "weld") if same_task else ("weld", "bond")
+        tasks = [{"name": tn[0], "id": "T0", "work": 2.0, "nf": True}, {"name": tn[1], "id": "T1", "work": 2.0, "nf": True}]
+        sk = {tn[0]: 1.0, tn[1]: 1.0}
+        wps = [{"name": "line", "id": "WP0", "cap": 1.0, "targets": [0], "facilities": [{"name": "F0", "skills": dict(sk)}, {"name": "F1", "skills": dict(sk)}]},
+               {"name": "line" if same_wp else "line2", "id": "WP1", "cap": 1.0, "targets": [1], "facilities": [{"name": "F2", "skills": dict(sk)}]}]
+        fsk = {"F0": 1.0, "F1": 1.0, "F2": 1.0}
+        pooled = [{"name": "TM0", "targets": [0, 1], "workers": [{"name": "W0", "skills": dict(sk), "fskills": dict(fsk)}, {"name": "W1", "skills": dict(sk), "fskills": dict(fsk)}]}]
+        per_line = [{"name": "TM0", "targets": [0], "workers": [{"name": "W0", "skills": dict(sk), "fskills": dict(fsk)}]},
+                    {"name": "TM1", "targets": [1], "workers": [{"name": "W1", "skills": dict(sk), "fskills": dict(fsk)}]}]  # one crew per line: a machine of the first line stays free
+        for tname_, teams in (("pooled", pooled), ("per-line", per_line)):
+            for order in (None, [1, 0]):
+                sp = {"tasks": tasks, "links": [], "components": [{"name": "C0", "tasks": [0]}, {"name": "C1", "tasks": [1]}], "workplaces": wps, "teams": teams,
+                      "label": "same-name-workplaces:%s:%s:%s:%s" % (same_wp, same_task, tname_, order)}
+                if order:
+                    sp["order"] = order
+                out.append(sp)
+    return out
+
+
+def waiting_component_spec():
+    """component C0 carries T0 -> T1; T1 has to wait for its only worker, who is busy on T2: C0 is WORKING, then READY, then WORKING"""
+    tasks = [{"name": "T0", "work": 1.0}, {"name": "T1", "work": 1.0}, {"name": "T2", "work": 3.0}]
+    teams = [{"name": "TM0", "targets": [0, 1, 2], "workers": [{"name": "W0", "skills": {"T0": 1.0}, "cost": 1.0}, {"name": "W1", "skills": {"T1": 1.0, "T2": 1.0}, "cost": 2.0}]}]
+    return {"tasks": tasks, "links": [[0, 1, "FS"]], "components": [{"name": "C0", "tasks": [0, 1]}, {"name": "CX", "tasks": [2]}], "teams": teams, "label": "waiting-component"}
+
+
+def shared_id_spec():
+    """people "1","2" and machines "1","2": worker IDs and facility IDs are separate name spaces"""
+    for sp0 in fac_specs("quick"):
+        if sp0["label"] == "fac:2:per-task:one-cap2:two:both":
+            sp = dict(sp0)
+            sp["teams"] = [dict(tm, workers=[dict(w, id=str(i + 1)) for i, w in enumerate(tm["workers"])]) for tm in sp0["teams"]]
+            k = 0
+            wps = []
+            for wp in sp0["workplaces"]:
+                fs = []
+                for f in wp["facilities"]:
+                    k += 1
+                    fs.append(dict(f, id=str(k)))
+                wps.append(dict(wp, facilities=fs))
+            sp["workplaces"] = wps
+            sp["tasks"] = [dict(t, work=3.0) for t in sp0["tasks"]]  # long enough to be saved while somebody is allocated
+            sp["label"] = "shared-ids"
+            return sp
+    raise KeyError("base model not found")
